@@ -24,7 +24,7 @@ Root == Len(nodes)
 
 ChildrenOf(nd) ==
     LET NZ(s) == s \ {0} IN
-    CASE nd.k = "val" -> {}
+    CASE nd.k \in {"val", "allopts"} -> {}
       [] nd.k = "opt" -> NZ({nd.d, nd.dom})
       [] nd.k = "pred" -> {nd.arg}
       [] nd.k = "tmpl" -> {nd.ps[i].n : i \in 1 .. Len(nd.ps)}
